@@ -26,7 +26,7 @@ from elementpath.helpers import numeric_equal, numeric_not_equal, \
     node_position, get_double
 from elementpath.namespaces import XSD_ERROR, get_namespace, get_expanded_name
 from elementpath.datatypes import UntypedAtomic, QName, AnyURI, \
-    Duration, Integer, DoubleProxy10
+    Duration, Integer, DoubleProxy10, AbstractDateTime
 from elementpath.xpath_nodes import ElementNode, DocumentNode, XPathNode, AttributeNode
 from elementpath.sequences import xlist
 from elementpath.sequence_types import is_instance
@@ -521,7 +521,15 @@ def evaluate__value_comparison_operators(self: XPathToken, context: ta.ContextTy
         return []
     elif any(isinstance(x, XPathFunction) for x in operands):
         raise self.error('FOTY0013', "cannot compare a function item")
-    elif all(isinstance(x, DoubleProxy10) for x in operands):
+    elif context is not None and context.timezone is not None and \
+            all(isinstance(x, AbstractDateTime) for x in operands):
+        # Date/time values without a timezone are compared using the implicit timezone
+        for k, x in enumerate(operands):
+            if x.tzinfo is None:
+                operands[k] = x = copy(x)
+                x.tzinfo = context.timezone
+
+    if all(isinstance(x, DoubleProxy10) for x in operands):
         # Special case of two <class 'float'> values: use custom operators
         if self.symbol == 'eq':
             return numeric_equal(*cast(list[float], operands))
